@@ -25,6 +25,16 @@ def run(tier, seed):
     items += [(RS.dae_reset('C14'),), (RS.dae_init_t('C14'),), (RS.fix_view_arrays('C14'), None, RS.replay_snapshot)]
     run_contracts(pack, items)
     RS.bounded_reset(pack, 'C14')
+    from contracts.packutil import native_guard
+    from contracts import bounded_resume as BR
+    name = 'C14/andes/routines/tds.py:TDS.run(resumed)/bounded:interrupted-and-resumed-run-equals-the-uninterrupted-run'
+    r = native_guard(pack, name, BR.run)
+    if r is not None:
+        n, bad = r
+        pack.bounded.append({'function': 'TDS.run resumed (end to end)', 'kind': 'bounded native: kundur_full, splits %r' % BR.SPLITS,
+                             'cases': n, 'counted_as_proved': False})
+        if bad:
+            pack.violation(name, {'bounded': True, 'inputs': bad, 'native_cmd': 'contracts/bounded_resume.py'})
     # hand-over lemma: ensures(run_1) /\ tf_2 >= tf_1 >= 0  ==>  requires(run_2)['resume-state'] and the resume branch
     t, tf1, tf2 = z3.Reals('t tf1 tf2')
     inv = z3.Bool('event_inv_and_step_size_inv')       # the same predicate instance: state is untouched between the calls
